@@ -322,6 +322,27 @@ theorem vc_on_kernel_stamp_rules (N scale F : Nat) (flow size : Int → Nat) (cf
   rw [absVC_eq h2.i.k h2.i.ai h2.i.l, g4] at this
   simpa [ofFlow] using this.symm
 
+/-- a workload as the property names it, without reference to the encoding: gaps are not negative, the packets belong to the
+classes `0 … F-1` and carry increasing ids in `0 … N-1` -/
+def Workload (N F : Nat) (flow : Int → Nat) (l : List (ℚ × Int)) : Prop :=
+  (∀ x ∈ l, 0 ≤ x.1 ∧ flow x.2 < F ∧ 0 ≤ x.2 ∧ x.2 < N) ∧ (l.map (·.2)).Pairwise (· < ·)
+
+/-- **For all configurations and all workloads** (the encoding parameter chosen by the theorem, no grid hypothesis left): for
+every vtick table with positive vticks over the classes `0 … F-1`, every `rate > 0` and every finite workload with gaps `≥ 0`,
+the program with `scale := VCK.scaleOf cfg arrivals` has all the properties of `vc_on_kernel_stamp_rules`. -/
+theorem vc_on_kernel_all_workloads (N F : Nat) (flow size : Int → Nat) (cfg : VcCfg ℚ) (arrivals : List (ℚ × Int))
+    (hc : CfgOK F cfg) (hw : Workload N F flow arrivals) (fuel n : Nat) (hn : 6 * arrivals.length + 4 ≤ n) :
+    ∃ sF o, runAll (prog flow size cfg N (scaleOf cfg arrivals)) (fuel + 1) n (initState F cfg arrivals) = .returned .none sF ∧
+      sF.agenda = [] ∧ putsOf sF.trace = arrivalsFrom 0 arrivals ∧
+      orun flow size cfg oInit (histOf sF.trace) = some o ∧ drained o = true ∧
+      ∀ f, ofFlow f (outPk flow size (histOf sF.trace)) = ofFlow f (putPk flow size (histOf sF.trace)) := by
+  have hg := gridOK_scaleOf cfg arrivals
+  refine vc_on_kernel_stamp_rules N _ F flow size cfg arrivals hc hg ⟨?_, hw.2⟩ fuel n hn
+  intro x hx
+  obtain ⟨h1, h2, h3, h4⟩ := hw.1 x hx
+  exact ⟨h1, h2, h3, h4, hg.gaps x hx⟩
+
+
 /-! ### concrete runs of the kernel model, evaluated by the kernel of Lean (exact arithmetic) -/
 
 /-- classes 0 and 1 with vticks 1 and 1/2, rate 8 (a packet of size 1 is transmitted in one time unit) -/
@@ -729,6 +750,25 @@ theorem wfq_on_kernel_stamp_rules (N scale F : Nat) (flow size : Int → Nat) (c
   have := (kernel_wfq_flow_fifo N scale F flow size cfg d1 L arrivals hc hg hw hsz fuel sF h4 f).2
   rw [absWFQ_eq h2.i.k h2.i.ai h2.i.l, g4] at this
   simpa [ofFlow] using this.symm
+
+
+/-- **For all WFQ configurations and all workloads** (the encoding parameters chosen by the theorem, no grid hypothesis left):
+for every table of positive whole weights over the classes `0 … F-1`, every `rate > 0` and every finite workload with gaps
+`≥ 0` and packets of positive size, the program with `scale := d1Of … · LOf …` has all the properties of
+`wfq_on_kernel_stamp_rules`. -/
+theorem wfq_on_kernel_all_workloads (N F : Nat) (flow size : Int → Nat) (cfg : WfqCfg ℚ) (arrivals : List (ℚ × Int))
+    (hc : WFQK.CfgOK F cfg) (hw : Workload N F flow arrivals) (hsz : ∀ id, 0 < size id) (fuel n : Nat)
+    (hn : 6 * arrivals.length + 4 ≤ n) :
+    ∃ sF o, runAll (prog F flow size cfg N (d1Of size cfg arrivals * LOf F cfg)) (fuel + 1) n (initState F arrivals) =
+        .returned .none sF ∧
+      sF.agenda = [] ∧ putsOf sF.trace = arrivalsFrom 0 arrivals ∧
+      orun F flow size cfg oInit (histOf sF.trace) = some o ∧ drained o = true ∧
+      ∀ f, ofFlow f (WFQK.outPk size flow (histOf sF.trace)) = ofFlow f (WFQK.putPk size flow (histOf sF.trace)) := by
+  have hg := gridOK_of size F cfg arrivals
+  refine wfq_on_kernel_stamp_rules N _ F flow size cfg _ _ arrivals hc hg ⟨?_, hw.2⟩ hsz fuel n hn
+  intro x hx
+  obtain ⟨h1, h2, h3, h4⟩ := hw.1 x hx
+  exact ⟨h1, h2, h3, h4, hg.gaps x hx, hg.tx x hx⟩
 
 
 /-- **What the WFQ oracle accepts at an arrival** (`WFQOnK.ostep` at exact rational time, the virtual-time and the stamp
